@@ -22,3 +22,7 @@ GROUPS.append(Group("qs/opt", "qs_opt.c", tus=QS, model=MODEL, dfcc=False, flags
                     must_fail=["reach_end", "reach_warm", "reach_skipped"], functions=["QSopt_primal", "QSopt_dual", "opt_work"], props=["C05", "C01", "C17"],
                     note="loop-free; every callee is a ghost-recording stub",
                     assumed=["qs/opt: ILLlib_optimize (the simplex), grab_basis, QSgrab_cache, QScopy_prob, ILLlp_scale are nondeterministic ghost-recording stubs"]))
+
+GROUPS.append(Group("qs/accessors", "qs_access.c", tus=QS, model=MODEL, dfcc=False, kind="proved", functions=["QSget_solution", "QSget_x_array", "QSget_slack_array", "QSget_rc_array", "QSget_pi_array", "QSget_named_x", "QSget_named_rc", "QSget_named_pi", "QSget_named_slack", "QSget_objval"],
+                    props=["C05", "C01", "C07", "C17"], note="loop-free wrappers; library callees stubbed",
+                    assumed=["qs/accessors: ILLlib_solution / get_x / get_slack / objval / colindex / rowindex are ghost-recording stubs (ILLlib_solution's cache branch is decided in lib/solution)"]))
